@@ -277,6 +277,11 @@ func (v *Verifier) evalIdent(fr *Frame, st *State, id *ast.Ident) Val {
 		return g
 	}
 	obj := v.lookupObj(fr, id)
+	if obj == nil && fr.fi != nil && fr.fi.Rename != nil {
+		if n, ok := fr.fi.Rename[name]; ok {
+			name = n // a local renamed since the contract was written (locals.go)
+		}
+	}
 	if obj == nil {
 		// contract expression: resolve by name
 		if c, ok := fr.byName[name]; ok {
